@@ -5,6 +5,8 @@ rounds = collections.defaultdict(lambda: [0, 0, 0])
 missed = []
 for m in sorted(glob.glob("/verif/seeded/*/meta.json")):
     d = json.load(open(m)); r = d["seed"].split("-")[0]
+    if d.get("retired"):
+        print("RETIRED", d["seed"]); continue
     rounds[r][0] += 1
     if d.get("caught_by"):
         rounds[r][1] += 1
